@@ -79,6 +79,8 @@ class Ctx:
             c = log.cause_stack[-1] if log.cause_stack else frozenset()
             last = log.ev[-1] if log.ev else None
             inherited = bool(last is not None and last[2] == 'IN' and last[3] == nid and not last[6])
+            if inherited:       # the class of the node that handed the data on without the metadata it had received
+                inherited = (log.strip_stack[-1] if log.strip_stack else None) or False
             return (c, inherited)
 
         if kind in ('sync', 'sync_block'):
@@ -96,6 +98,11 @@ class Ctx:
                     log.add('FAILED', nid, x, k, c)
                     raise F.InjectedFault((nid, k))
                 log.add('END', nid, x, k, c)
+                if spec.get('detach_at') == k:
+                    # a one-shot consumer: it takes itself out of the pipeline from inside its own call, i.e. while its
+                    # upstream is in the middle of delivering to its consumers
+                    log.add('EDIT', nid, 'self-detach', k)
+                    self.nodes[nid].destroy()
             return sink
         if kind in ('coro', 'awaitable'):
             async def body(x, k, c):
@@ -270,6 +277,7 @@ def build_async(prog, log, ctx):
             n = build_node(spec, S, calls, None, {'asynchronous': True})
         log.name(n, nid)
         S[nid] = n
+    ctx.nodes = S
     for u, v in prog.get('extra_edges', []):
         S[u].connect(S[v])
     return S
